@@ -554,3 +554,51 @@ Definition copier_outcome (c : copier) (src_close_ok dst_close_ok : bool) : opti
   if negb src_close_ok then (Some ESrcClose, false)
   else if negb dst_close_ok then (Some EDstClose, true)
   else (match c_status c with COk => None | _ => Some EBody end, true).
+
+(* ------------------------------------------------------------------------------------------ *)
+(* Open dispositions.  How the destination of a transfer is opened decides what it holds before
+   the first write.
+     client: mode string -> SFTPv3 pflags (_open_modes); for a v5/v6 session pflags -> desired
+             access + disposition (_pflags_to_flags)
+     server: SFTPServer.open (v3/v4 pflags) and SFTPServer.open56 (v5/v6) -> os.open flags
+   pflags bits: 0 READ, 1 WRITE, 2 APPEND, 3 CREAT, 4 TRUNC, 5 EXCL.
+   dispositions (flags & 7): 0 CREATE_NEW, 1 CREATE_TRUNCATE, 2 OPEN_EXISTING, 3 OPEN_OR_CREATE,
+   4 TRUNCATE_EXISTING; flags bit 3 APPEND_DATA; desired access bits 0 READ_DATA, 1 WRITE_DATA,
+   2 APPEND_DATA, 7 READ_ATTRIBUTES, 8 WRITE_ATTRIBUTES. *)
+Record oflags := mkOflags { o_creat : bool; o_excl : bool; o_trunc : bool; o_append : bool }.
+
+(* SFTPServer.open *)
+Definition server_open_v3 (pflags : Z) : oflags :=
+  mkOflags (Z.testbit pflags 3) (Z.testbit pflags 5) (Z.testbit pflags 4) (Z.testbit pflags 2).
+
+(* _pflags_to_flags: (desired_access, flags) *)
+Definition pflags_to_flags (pflags : Z) : Z * Z :=
+  let c := Z.testbit pflags 3 in
+  let t := Z.testbit pflags 4 in
+  let e := Z.testbit pflags 5 in
+  let disp := if c && e then 0 else if c && t then 1 else if c then 3 else if t then 4 else 2 in
+  let acc := (if Z.testbit pflags 0 then 1 + 128 else 0) + (if Z.testbit pflags 1 then 2 + 256 else 0)
+             + (if Z.testbit pflags 2 then 4 else 0) in
+  (acc, disp + (if Z.testbit pflags 2 then 8 else 0)).
+
+(* SFTPServer.open56 *)
+Definition server_open_v56 (desired_access flags : Z) : oflags :=
+  let disp := Z.land flags 7 in
+  mkOflags ((disp =? 0) || (disp =? 1) || (disp =? 3)) (disp =? 0) ((disp =? 1) || (disp =? 4))
+           (Z.testbit desired_access 2 || Z.testbit flags 3).
+
+(* what the server does with the pflags of a client request in a session of the given version *)
+Definition session_open (version pflags : Z) : oflags :=
+  if 5 <=? version then let (acc, fl) := pflags_to_flags pflags in server_open_v56 acc fl
+  else server_open_v3 pflags.
+
+(* os.open on a regular file: None = the open fails; Some c = it succeeds and the file then holds c.
+   O_EXCL only matters together with O_CREAT. *)
+Definition posix_open (f : oflags) (existing : option bytes) : option bytes :=
+  match existing with
+  | None => if o_creat f then Some [] else None
+  | Some c => if o_creat f && o_excl f then None else Some (if o_trunc f then [] else c)
+  end.
+
+(* _open_modes: 'w' / 'wb', the mode every get/put/copy destination is opened with *)
+Definition PFLAGS_W : Z := 2 + 8 + 16.
